@@ -5,3 +5,5 @@ cd "$(dirname "$0")"
 for t in cbmc goto-cc goto-instrument kissat gcc python3; do command -v $t >/dev/null || { echo "missing $t"; exit 1; }; done
 python3 -c "import vlib.check, vlib.registry; print(len(vlib.registry.all_jobs()), 'jobs registered')"
 mkdir -p build evidence replays
+# validate the intrinsics model against the hardware (trusted-stub sanity check, DESIGN 4.3)
+tools/shimtest.sh || { echo "shim validation failed"; exit 1; }
